@@ -128,3 +128,56 @@ PROPS['C01'] = {
     'level_note': 'Trusted: Lean kernel, translator, harness, Linux seqpacket semantics; serde data model covered by the Value/Schema family only',
     'claimed': False,
 }
+
+
+def wire_scen(mode, nq, nt, extra=None):
+    def f(tier, seed):
+        n = nt if tier == 'thorough' else nq
+        out = [{'args': ['wire', '--mode', mode, '--tier', tier, '--seed', str(seed + k), '--n', str(n // 4)]} for k in range(4)]
+        if extra:
+            out += extra(tier, seed)
+        return out
+    return f
+
+
+def search_wire(run):
+    """when the decoder proofs or the correspondence break: re-run the decode fuzz with more cases and other seeds
+    (implementation side), and ask the regenerated model for a panic on the mismatching request (model side)"""
+    for t in run.t_broken:
+        req = t.get('request', '')
+        if req.startswith('dec '):
+            ans = driver([req])
+            if ans and ans[0] == 'panic':
+                return {'model_panics_on': req, 'implementation_answer': t.get('impl')}
+    for k in range(3):
+        rc, cases, err = vh(['wire', '--mode', 'dec', '--seed', str(1000 + k), '--n', '3000'])
+        bad = [c for c in cases if c.get('oracle')]
+        if bad:
+            return {'implementation': bad[0], 'replay_cmd': f'harness/target-default/debug/vh wire --mode dec --seed {1000 + k} --n 3000'}
+    return None
+
+
+PROPS['C16'] = {
+    'modules': ['IpcModel.Props.C16'],
+    'theorems': ['C16.C16_total', 'C16.C16_sound', 'C16.C16_roundtrip', 'Wire.dec_ne_panic_all', 'Wire.dec_sound_all', 'Wire.dec_enc'],
+    'scenarios': wire_scen('dec', 2400, 40000),
+    'search': search_wire,
+    'rule': ('12 expected types x 4 styles (random bytes; valid encoding; mutated valid encoding; mutated encoding with random attachment lists) '
+             'x 0..8 channel attachments (sender or receiver ends) x 0..3 regions, each decoded by the real IpcReceiver::recv under catch_unwind; '
+             'every case is non-trivial; distinct = distinct (type, bytes, attachments)'),
+    'explanation': ('decoder totality (never panic), soundness (endpoints are a sub-multiset of this message\'s attachments, each used once) and round trip '
+                    'proved for all bytes/attachments/types of the Schema family; the real decoder compared result-by-result with the model; release of unused '
+                    'attachments checked by observing disconnection and /proc/self/fd'),
+    'assumptions': ['expected types are drawn from the Schema family (ints, bool, str, option, seq, tuple, enum, sender, receiver, region)',
+                    'Rust ownership drops partially built values on error (not modelled; observed by the oracle)'],
+    'level_text': ('Kernel-checked: the repaired decoder never panics on any bytes/attachments/type, every decoded endpoint is one of the message\'s '
+                   'attachments used at most once, well-typed values round-trip; real decoder vs model on fuzzed and mutated inputs; attachment release '
+                   'observed on the real crate'),
+    'level_note': 'Trusted: Lean kernel, harness, bincode 1.3 modelled for the Schema family (tied by differential decode); drop-based release observed, not proved',
+}
+PROPS['C01']['scenarios'] = (lambda old: (lambda tier, seed: old(tier, seed) + wire_scen('enc', 1200, 20000)(tier, seed)))(PROPS['C01']['scenarios'])
+PROPS['C01']['modules'] = ['IpcModel.Props.C01', 'IpcModel.Props.C16']
+PROPS['C01']['theorems'] += ['C16.C16_roundtrip', 'Wire.dec_enc']
+PROPS['C01']['claimed'] = True
+PROPS['C01']['rule'] += ('; plus seeded (schema, value) pairs (nested options/sequences/tuples/enums/strings/ints, with embedded endpoints) sent through the real '
+                         'IpcSender::send: wire bytes compared with the model encoder and the received value with the model decoder')
